@@ -333,7 +333,7 @@ def relayout(rng, c, readonly=True):
     """the same values in another memory layout: Fortran order, a strided view into a larger buffer, a view with a negative
     stride, or a read-only array - nothing in the properties depends on how a core is laid out in memory"""
     c = np.asarray(c)
-    k = int(rng.integers(0, 5 if readonly else 4))
+    k = 0 if rng.random() < 0.4 else int(rng.integers(0, 5 if readonly else 4))  # (Fortran order is what lets LAPACK work in place)
     if k == 0:
         return np.asfortranarray(c)
     if k == 1:  # every second element of a larger buffer along the last axis
@@ -349,3 +349,33 @@ def relayout(rng, c, readonly=True):
     out = np.array(c, copy=True)
     out.setflags(write=False)
     return out
+
+
+INT_TYPES = [int, np.int64, np.int32, np.int16, np.int8, np.uint8, np.uint16, np.uint32, np.uint64, np.intp]
+FLOAT_TYPES = [float, np.float64, np.float32]
+
+
+def as_int(rng, v, p=0.35):
+    """the integer v as a Python int or (with probability p) as some NumPy integer scalar type that can hold it"""
+    if rng.random() >= p:
+        return int(v)
+    for _ in range(8):
+        t = INT_TYPES[int(rng.integers(0, len(INT_TYPES)))]
+        if t is int:
+            return int(v)
+        info = np.iinfo(t)
+        if info.min <= v <= info.max:
+            return t(v)
+    return int(v)
+
+
+def as_float(rng, v, p=0.3, allow32=False):
+    if rng.random() >= p:
+        return float(v)
+    t = FLOAT_TYPES[int(rng.integers(0, 3 if allow32 else 2))]
+    return t(v)
+
+
+def relayout_tt(rng, t):
+    """the same train with its cores in other memory layouts (Fortran order, strided / negative-stride / interior views)"""
+    return TTcls()([relayout(rng, c, readonly=False) for c in t.cores])
